@@ -34,7 +34,10 @@ PROP = {
         'objects enter through the constructors (`…::new`, which cascade the interval) and are changed only '
         'through step / walk / walk_timed_path / set_save_interval: an object assembled from `Default` parts by a '
         'struct literal or deserialised with mixed intervals has no single save interval and is outside the '
-        'statement (C19_unaligned_intervals_counterexample shows the alignment hypothesis is forced)',
+        'statement (C19_unaligned_intervals_counterexample shows the alignment hypothesis is forced); intervals of '
+        'NESTED objects written directly (pub save_interval field of a component, own setter of a locomotive or of '
+        'the consist) are inside the statement provided a top-level set_save_interval follows before the next '
+        'step / walk (C19_poke_without_set_counterexample shows that demand is forced)',
         'save_interval = Some(0) panics with a remainder by zero (theorem zero_interval_panics, reproduced on the '
         'real code every run); the property quantifies over None, 1, n',
         'the number of executed steps of a walk and whether it ended with Err are taken from the real run '
@@ -44,7 +47,7 @@ PROP = {
     'namespaces': ['Altrios.Proofs.C19'],
     'nontrivial_stats': ['hist.fresh.steps.4-15', 'hist.fresh.steps.16-99', 'hist.fresh.steps.100+',
                          'hist.script.failing_step', 'hist.script.set_interval', 'hist.walk.ended_with_error',
-                         'hist.fresh.resumed_after_error'],
+                         'hist.fresh.resumed_after_error', 'hist.script.poke', 'hist.script.set_same_as_current'],
     'proof_modules': ['C19'],
     'required_theorems': [
         'Altrios.Proofs.C19.scan_ok',
@@ -61,11 +64,20 @@ PROP = {
         'Altrios.Proofs.C19.C19_row_count',
         'Altrios.Proofs.C19.C19_error_keeps_rows',
         'Altrios.Proofs.C19.C19_any_script_aligned',
+        'Altrios.Proofs.C19.shape_setClean',
+        'Altrios.Proofs.C19.C19_set_absorbs_poke_tree',
+        'Altrios.Proofs.C19.C19_set_absorbs_setAt_tree',
+        'Altrios.Proofs.C19.C19_setAt_needs_clean_counterexample',
+        'Altrios.Proofs.C19.C19_set_absorbs_poke',
+        'Altrios.Proofs.C19.C19_any_script_aligned_poked',
+        'Altrios.Proofs.C19.C19_poke_without_set_counterexample',
         'Altrios.Proofs.C19.C19_unaligned_intervals_counterexample',
         'Altrios.Proofs.C19.zero_interval_panics',
     ],
     'rule': 'after every checkpoint of every generated run (fresh walks, timed-path walks, manual steps, injected '
-            'failing steps, interval changes) the dump of the REAL object tree (path, state.i, save_interval, '
+            'failing steps, interval changes at the top level, intervals of nested objects written through pub fields '
+            '/ own setters and then ALWAYS a top-level set, half of the time with the value the consist already holds) '
+            'the dump of the REAL object tree (path, state.i, save_interval, '
             'history.len(), i column of every node) must equal the model\'s dump for the same driver ops on the '
             'regenerated shape, and the oracle requires directly on the real dump: all counters equal, all '
             'intervals equal the top-level one, all histories of equal length with identical i columns, rows in '
@@ -96,7 +108,12 @@ TEXT = {
             'number k of executed steps, with or without a final failing step: all counters are k+1, all intervals '
             'equal, and every history has exactly the i column (if n=1 then [1] else []) ++ [j in 1..k | j % n = 0] '
             'of length (n=1) + k/n (C19_walk, C19_row_count); any script of steps, failing steps, interval changes '
-            'and walks keeps the tree aligned (C19_any_script_aligned). Some(0) panics (zero_interval_panics). '
+            'and walks keeps the tree aligned (C19_any_script_aligned). For every state of every shape (any, also '
+            'non-uniform, nested intervals) a top-level set_save_interval after any run of raw writes to nested '
+            'save_interval fields and of nested objects\' own setters yields EXACTLY the tree the top-level set alone '
+            'yields (C19_set_absorbs_poke; new decidable table obligation shape_setClean: setters write only objects '
+            'that have a save_interval), and scripts in which every such run is followed by a top-level set before '
+            'the next step / walk stay aligned (C19_any_script_aligned_poked). Some(0) panics (zero_interval_panics). '
             'Tied to the code by the regenerated tables and by comparing the dump of the real object tree after '
             'every driver op with the model.',
 }
